@@ -283,8 +283,14 @@ impl Checker {
                 );
             }
         }
-        // linearizability against sequential Memfs
-        if ok && !linearizable(calls, &snapshot_key(snap), &mut self.cache) {
+        // linearizability against sequential Memfs. A call over several entries (copy, remove_all, recursive
+        // chmod/chown) that fails half way stops where its unordered traversal was: the sequential specification
+        // is then not a function of the order of calls, and replaying it cannot decide anything
+        let partial = calls.iter().any(|c| matches!(c.op, Op::Copy(..) | Op::CopyB(..) | Op::RemoveAll(..) | Op::ChmodB(..) | Op::ChownB(..)) && matches!(&c.res, Res::Err(k) if k != "DoesNotExist"));
+        if partial {
+            rep.count("linearizability_not_judged:multi-entry-call-failed-half-way", 1);
+        }
+        if ok && !partial && !linearizable(calls, &snapshot_key(snap), &mut self.cache) {
             ok = false;
             rep.violation(&format!("conc:{}:linearizable→no-sequential-order-explains-it", ops), wit("no order of the calls consistent with program order and real-time precedence reproduces these results and this final state on a sequential Memfs".into(), calls));
         }
